@@ -65,9 +65,25 @@ func genProfile(t *simrt.Tape, o genOpts) *profile.Profile {
 	if t.Bool(K, 15) {
 		p.DropFrames = "runtime\\..*"
 	}
+	// header fields most profiles leave empty
+	if t.Bool(K, 10) {
+		p.KeepFrames = []string{"runtime\\.mallocgc", "main\\..*", "("}[t.Choose(K, 2+b2i(o.odd))]
+		if p.DropFrames == "" && t.Bool(K, 50) {
+			p.DropFrames = []string{".*", "foo|bar"}[t.Choose(K, 2)]
+		}
+	}
+	if t.Bool(K, 10) {
+		p.DefaultSampleType = []string{typeNames[(nt-1)%4][0], "samples", "nosuchtype", ""}[t.Choose(K, 4)]
+	}
+	if t.Bool(K, 8) {
+		p.DocURL = []string{"https://example.com/doc", "http://x/<y>&z", "not a url"}[t.Choose(K, 3)]
+	}
 	nm := o.mappings
 	if nm == 0 {
 		nm = 1 + t.Choose(K, 2)
+		if t.Bool(K, 10) {
+			nm = 3 + t.Choose(K, 2)
+		}
 	}
 	for i := 0; i < nm; i++ {
 		m := &profile.Mapping{ID: uint64(i + 1), Start: uint64(0x400000 + i*0x100000), Limit: uint64(0x400000 + i*0x100000 + 0x80000), File: []string{"/bin/prog", "/lib/libc.so"}[i%2]}
@@ -75,6 +91,15 @@ func genProfile(t *simrt.Tape, o genOpts) *profile.Profile {
 			m.BuildID = []string{"abcdef0123", "ff00"}[i%2]
 		}
 		m.HasFunctions = true
+		if t.Bool(K, 15) {
+			m.HasFilenames, m.HasLineNumbers, m.HasInlineFrames = t.Bool(K, 50), t.Bool(K, 50), t.Bool(K, 50)
+			if t.Bool(K, 30) {
+				m.Offset = uint64(0x1000 * (1 + t.Choose(K, 3)))
+			}
+			if t.Bool(K, 20) {
+				m.KernelRelocationSymbol = "_stext"
+			}
+		}
 		if o.odd {
 			switch t.Choose(K, 8) {
 			case 1:
@@ -144,8 +169,15 @@ func genProfile(t *simrt.Tape, o genOpts) *profile.Profile {
 		if o.odd && t.Bool(K, 10) {
 			l.Line = nil // unsymbolized
 		}
+		if t.Bool(K, 6) {
+			l.IsFolded = true
+		}
 		if o.odd && t.Bool(K, 5) {
 			l.Address = ^uint64(0)
+		}
+		if o.odd && t.Bool(K, 8) {
+			// ids are arbitrary non-zero 64-bit numbers
+			l.ID = []uint64{1 << 63, ^uint64(0), 1<<63 | 5, 1 << 62}[t.Choose(K, 4)] - uint64(i)
 		}
 		if o.tieRich && i > 0 && t.Bool(K, 12) {
 			// two locations at one address with different line information
@@ -248,6 +280,13 @@ func genProfile(t *simrt.Tape, o genOpts) *profile.Profile {
 		}
 	}
 	return p
+}
+
+func b2i(b bool) int {
+	if b {
+		return 1
+	}
+	return 0
 }
 
 func encodeProfile(p *profile.Profile) []byte {
